@@ -52,6 +52,7 @@ KNOWN = [
 ]
 
 FIXED = [
+ ("C03", "56ff118", "C03.R5 ContentResolver::clear_caches wiped the FileDataID map (not a cache): after clear_caches() every FileDataID of the loaded root resolved to None (findings/T15; noted by a seeding agent, confirmed)"),
  ("C08", "03650d5", "(no rule) ArchiveGroupBuilder::build chunk count from the byte total: 46002 entries built Ok, own output failed to parse (FileSizeMismatch), tail entries never written (findings/T14; noted by a seeding agent, confirmed)"),
  ("C08", "1f3fbd6", "C08.R1 patch archive block_count as u16: 65536 blocks announced as 0, parser returned an empty archive (findings/T12/site4)"),
  ("C08", "6d2aad2", "C08.R1 patch archive espec length as u8: a 256-byte ESpec built Ok, output did not parse (findings/T12/site3)"),
